@@ -37,13 +37,27 @@ ERRNOS = {"ENOSPC": 28, "EIO": 5}
 
 
 def budget(tier):
-    return {"examples": 8 if tier == "quick" else 16, "shards": 1 if tier == "quick" else 16}
+    return {"examples": 6 if tier == "quick" else 16, "shards": 1 if tier == "quick" else 16}
 
 
 @st.composite
 def _cases(draw, tier):
     cfg = draw(S.rf_configs(spf_cap=64, boundary_p=0.5))
     ops = draw(S.write_ops(cfg, max_calls=3, max_files=2, allow_blocks=not cfg["cont"]))
+    if not cfg["cont"] and draw(st.integers(0, 1)):
+        # end with block writes (the Python rf_write_blocks path reaches digital_rf_write_blocks_hdf5 directly), so that
+        # "refuses further writes after an error" is also exercised through that entry point
+        m = rfmodel.Model(cfg)
+        for op in ops:
+            m.apply(op)
+        spf = rfmodel.samples_per_file_max(cfg)
+        for _ in range(draw(st.integers(1, 2))):
+            nxt = m.next_avail + draw(st.sampled_from([0, 1, spf]))
+            l1 = draw(st.integers(1, max(1, spf)))
+            l2 = draw(st.integers(1, max(1, spf // 2)))
+            op = {"op": "b", "len": l1 + l2, "g": [nxt, nxt + l1 + draw(st.integers(1, max(1, spf)))], "d": [0, l1]}
+            m.apply(op)
+            ops.append(op)
     return {"cfg": cfg, "ops": ops, "py_sample": [draw(st.integers(0, 10 ** 6)) for _ in range(6 if tier == "quick" else 25)]}
 
 
